@@ -146,9 +146,9 @@ Qed.
 (** ---- Gamma and Claim phases *)
 Lemma axiom_pat_simple a : simple (axiom_pat d sid a) = true.
 Proof.
-  unfold axiom_pat. destruct (a_stmt a) as [tc [|t r]]; [reflexivity|].
-  apply chain_imp_simple; [|apply im_simple].
-  induction (a_ess a) as [|e es IH]; simpl; [reflexivity|]. rewrite im_simple. exact IH.
+  unfold axiom_pat, ants_pat, concl_pat. apply chain_imp_simple.
+  - induction (a_ess a) as [|e es IH]; simpl; [reflexivity|]. rewrite im_simple. exact IH.
+  - destruct (a_stmt a) as [tc [|t r]]; [reflexivity | apply im_simple].
 Qed.
 
 Lemma publish_list ph (P:assertion -> pat) (upd:state -> pat -> state) l :
